@@ -33,27 +33,27 @@ def shapes(n):
     return forests(n - 1)
 
 
-def _build_native(shape, names, counter=None, parent=None):
+def _build_native(shape, names, counter=None, parent=None, dupids=False):
     from metapype.model.node import Node
     if counter is None:
         counter = [0]
     i = counter[0]
     counter[0] += 1
-    n = Node(names[i], id="n%d" % i)
+    n = Node(names[i], id=("same-id" if dupids else "n%d" % i))
     n._parent = parent
     for sub in shape:
-        n._children.append(_build_native(sub, names, counter, n))
+        n._children.append(_build_native(sub, names, counter, n, dupids))
     return n
 
 
-def judge_native(shape, names, fails, collecting):
+def judge_native(shape, names, fails, collecting, dupids=False):
     """Run the real validate.tree with validate.node monkey-patched to the given per-node outcomes."""
     from metapype.eml import validate
     from metapype.eml.exceptions import MetapypeRuleError
     from metapype.model.node import Node
     Node.store.clear()
     shape = _tuplify(shape)
-    root = _build_native(shape, names)
+    root = _build_native(shape, names, dupids=dupids)
     order = []
 
     def collect(n, below):
@@ -107,7 +107,8 @@ def _tuplify(x):
 
 
 def encode(job):
-    shape, collecting, sd = job
+    shape, collecting, sd = job[:3]
+    dupids = len(job) > 3 and job[3] == "dupids"
     from metapype.eml import validate
     from metapype.eml.exceptions import MetapypeRuleError
     from metapype.model.node import Node
@@ -131,7 +132,7 @@ def encode(job):
 
         def build(sh, parent, below_md):
             i = len(nodes)
-            n = Node("?", id="n%d" % i)
+            n = Node("?", id=("same-id" if dupids else "n%d" % i))      # validation must not depend on node ids
             nm = it.name("name%d" % i)
             n._name = nm
             n._parent = parent
@@ -236,7 +237,7 @@ def encode(job):
         res["twins"][qn] = rr
         if rr == "sat" and qn != "reach_metadata_cut":
             res["twins"][qn + "_model"] = decode(s.model())
-    xs = common.xs_run(s, qs, res["verdicts"], (shape, collecting), ("accept_differs_from_conjunction", "visits_below_metadata"))
+    xs = common.xs_run(s, qs, res["verdicts"], (shape, collecting, dupids), ("accept_differs_from_conjunction", "visits_below_metadata"))
     if xs:
         res["xsolver"] = xs
     res["t_solve"] = time.time() - t1
@@ -256,6 +257,7 @@ def run(tier, only=None):
     maxn = 5 if tier == "quick" else 7
     all_shapes = [sh for n in range(1, maxn + 1) for sh in shapes(n)]
     jobs = [(sh, coll, sd) for sh in all_shapes for coll in (False, True)]
+    jobs += [(sh, coll, sd, "dupids") for sh in all_shapes if _count(sh) <= 4 for coll in (False, True)]
     rep.bounds = {"max_nodes": maxn, "shapes": len(all_shapes),
                   "note": "every ordered rooted tree shape with <= max_nodes nodes (enumerated: shape is heap); per node a symbolic "
                           "name in {metadata, entityName, dataset, additionalMetadata, any other string} and a symbolic pass/fail outcome of single-node validation"}
@@ -266,8 +268,9 @@ def run(tier, only=None):
     rep.stubs = ["validate.node: uninterpreted outcome per node (raise MetapypeRuleError / append an opaque item carrying the node index)"]
     validated = 0
     for status, job, r in common.pool_map(encode, jobs, chunksize=4):
-        sh, coll, _ = job
-        tag = "shape %r %s" % (sh, "collecting" if coll else "fail-fast")
+        sh, coll = job[0], job[1]
+        dup = len(job) > 3
+        tag = "shape %r %s%s" % (sh, "collecting" if coll else "fail-fast", " [all nodes carry the same id string]" if dup else "")
         if status != "ok":
             rep.mismatch.append("%s: engine crashed: %s" % (tag, r[:300]))
             continue
@@ -293,10 +296,10 @@ def run(tier, only=None):
                     rep.inconclusive.append("%s: %s obligation open" % (tag, qn))
                     continue
                 names, fl = r["cex"][qn]
-                msg = judge_native(sh, names, fl, coll)
+                msg = judge_native(sh, names, fl, coll, dup)
                 if msg:
-                    rep.violation({"shape": repr(sh), "names": names, "fails": fl, "mode": "collecting" if coll else "failfast"}, msg,
-                                  {"harness": "c05", "shape": sh, "names": names, "fails": fl, "collecting": coll})
+                    rep.violation({"shape": repr(sh), "names": names, "fails": fl, "mode": "collecting" if coll else "failfast", "same_ids": dup}, msg,
+                                  {"harness": "c05", "shape": sh, "names": names, "fails": fl, "collecting": coll, "dupids": dup})
                 else:
                     rep.mismatch.append("%s: solver model %r for %s does not reproduce natively" % (tag, (names, fl), qn))
         tw = r["twins"]
@@ -304,12 +307,12 @@ def run(tier, only=None):
             if k in tw:
                 validated += 1
                 names, fl = tw[k]
-                msg = judge_native(sh, names, fl, coll)
+                msg = judge_native(sh, names, fl, coll, dup)
                 if msg:      # a solver-chosen input on which the real code violates the property: report it
                     rep.violation({"shape": repr(sh), "names": names, "fails": fl, "mode": "collecting" if coll else "failfast"}, msg,
                                   {"harness": "c05", "shape": sh, "names": names, "fails": fl, "collecting": coll})
         if tw.get("reach_accept") == "sat" and tw.get("reach_reject") == "sat":
-            rep.nontrivial.add((sh, coll))
+            rep.nontrivial.add((sh, coll, dup))
         if len(repr(sh)) > 8:
             rep.sample({"shape": repr(sh), "mode": "collecting" if coll else "fail-fast", "verdicts": r["verdicts"],
                         "rejected_example": tw.get("reach_reject_model")}, cap=6)
@@ -319,5 +322,5 @@ def run(tier, only=None):
 
 
 def replay(payload):
-    msg = judge_native(payload["shape"], payload["names"], payload["fails"], payload["collecting"])
+    msg = judge_native(payload["shape"], payload["names"], payload["fails"], payload["collecting"], payload.get("dupids", False))
     return (bool(msg), msg or "real validate.tree agrees with the per-node conjunction on this input")
